@@ -2,7 +2,9 @@
 """Mutation self-test of C03: applies each hand-written change to a scratch worktree of /repo
 and runs ./check C03 against it (run inside a PRIVATE COPY of /verif, never in /verif itself).
 usage: python3 corpus/C03/mutants.py [name ...]      (no name: all)
-Every mutant must give `VIOLATION property=C03 replay=...`; the ones named r* must stay silent."""
+Every mutant must give `VIOLATION property=C03 replay=...`; the ones named r* must stay silent
+(r1-r4: behaviour-preserving refactorings; rw1-rw8: harmless rewrites of the functions that are
+translated to Lean on every run - the tie proofs must survive them)."""
 import os, subprocess, sys
 V = os.path.dirname(os.path.dirname(os.path.dirname(os.path.abspath(__file__))))
 WT = "/tmp/c03-mutant-wt"
@@ -69,6 +71,47 @@ M = {
  "s6": ("store name check without the dot-segment guard and anchored only at the end", [(FN, "regexp.MustCompile(`^[a-zA-Z0-9_.-]+$`)", "regexp.MustCompile(`[a-zA-Z0-9_.-]+$`)")]),
  "s7": ("plugin identity success clears the authenticity error (seeded C03-5 in one line)", [(VF, "\t\t\tif !pluginResult.Success {\n\t\t\t\t// find the Authenticity VerificationResult",
      "\t\t\tif pluginResult.Success {\n\t\t\t\tfor _, r := range outcome.VerificationResults {\n\t\t\t\t\tif r.Type == trustpolicy.TypeAuthenticity {\n\t\t\t\t\t\tr.Error = nil\n\t\t\t\t\t}\n\t\t\t\t}\n\t\t\t}\n\t\t\tif !pluginResult.Success {\n\t\t\t\t// find the Authenticity VerificationResult")]),
+ # --- tie to the translated source: property-breaking edits inside each translated function
+ #     (besides m1 m2 m3 m8 m9 m11 m12 m16 m21 above, which sit in the same functions)
+ "t1": ("isTSATrustStoreInPolicy: comparison reversed", [(H, "if truststore.Type(storeType) == truststore.TypeTSA {", "if truststore.Type(storeType) != truststore.TypeTSA {")]),
+ "t2": ("isTSATrustStoreInPolicy: a value without separator is passed over", [(H,
+     "\t\tif !found {\n\t\t\treturn false, truststore.TrustStoreError{Msg: fmt.Sprintf(\"invalid trust policy statement: %q is missing separator in trust store value %q. The required format is <TrustStoreType>:<TrustStoreName>\", policyName, trustStore)}\n\t\t}",
+     "\t\tif !found {\n\t\t\tcontinue\n\t\t}")]),
+ "t3": ("loadX509TrustStores: unknown scheme falls back to the ca type", [(H,
+     "\tdefault:\n\t\treturn nil, truststore.TrustStoreError{Msg: fmt.Sprintf(\"error while loading the trust store, unrecognized signing scheme %q\", scheme)}",
+     "\tdefault:\n\t\ttypeToLoad = truststore.TypeCA")]),
+ "t4": ("loadX509TSATrustStores: loads ca stores as timestamping anchors", [(H, "\t\ttypeToLoad = truststore.TypeTSA", "\t\ttypeToLoad = truststore.TypeCA")]),
+ "t5": ("loadX509TSATrustStores: signing authority scheme accepted", [(H, "\tcase signature.SigningSchemeX509:\n\t\ttypeToLoad = truststore.TypeTSA", "\tcase signature.SigningSchemeX509, signature.SigningSchemeX509SigningAuthority:\n\t\ttypeToLoad = truststore.TypeTSA")]),
+ # --- harmless rewrites of the translated functions: must stay silent (names start with r)
+ "rw1": ("REWRITE loadX509TrustStoresWithType: locals renamed, message reworded", [
+     (H, "\tprocessedStoreSet := set.New[string]()\n\tvar certificates []*x509.Certificate\n\tfor _, trustStore := range trustStores {\n\t\tif processedStoreSet.Contains(trustStore) {",
+         "\tseen := set.New[string]()\n\tvar out []*x509.Certificate\n\tfor _, entry := range trustStores {\n\t\tif seen.Contains(entry) {"),
+     (H, "\t\tstoreType, name, found := strings.Cut(trustStore, \":\")\n\t\tif !found {\n\t\t\treturn nil, truststore.TrustStoreError{Msg: fmt.Sprintf(\"error while loading the trust store, trust policy statement %q is missing separator in trust store value %q. The required format is <TrustStoreType>:<TrustStoreName>\", policyName, trustStore)}\n\t\t}\n\t\tif trustStoreType != truststore.Type(storeType) {",
+         "\t\ttyp, storeName, ok := strings.Cut(entry, \":\")\n\t\tif !ok {\n\t\t\treturn nil, truststore.TrustStoreError{Msg: fmt.Sprintf(\"statement %q: trust store value %q has no separator\", policyName, entry)}\n\t\t}\n\t\tif trustStoreType != truststore.Type(typ) {"),
+     (H, "\t\tcerts, err := x509TrustStore.GetCertificates(ctx, trustStoreType, name)\n\t\tif err != nil {\n\t\t\treturn nil, err\n\t\t}\n\t\tcertificates = append(certificates, certs...)\n\t\tprocessedStoreSet.Add(trustStore)\n\t}\n\treturn certificates, nil",
+         "\t\tloaded, err := x509TrustStore.GetCertificates(ctx, trustStoreType, storeName)\n\t\tif err != nil {\n\t\t\treturn nil, err\n\t\t}\n\t\tout = append(out, loaded...)\n\t\tseen.Add(entry)\n\t}\n\treturn out, nil")]),
+ "rw2": ("REWRITE loadX509TrustStoresWithType: declarations swapped, comparison operands swapped, Add before append", [
+     (H, "\tprocessedStoreSet := set.New[string]()\n\tvar certificates []*x509.Certificate\n", "\tvar certificates []*x509.Certificate\n\tprocessedStoreSet := set.New[string]()\n"),
+     (H, FILTER, "if truststore.Type(storeType) != trustStoreType {"),
+     (H, "\t\tif err != nil {\n\t\t\treturn nil, err\n\t\t}\n\t\tcertificates = append(certificates, certs...)\n\t\tprocessedStoreSet.Add(trustStore)", "\t\tif nil != err {\n\t\t\treturn nil, err\n\t\t}\n\t\tprocessedStoreSet.Add(trustStore)\n\t\tcertificates = append(certificates, certs...)")]),
+ "rw3": ("REWRITE isTSATrustStoreInPolicy: operands swapped, locals renamed, `found == false`", [
+     (H, "\tfor _, trustStore := range trustStores {\n\t\tstoreType, _, found := strings.Cut(trustStore, \":\")\n\t\tif !found {\n\t\t\treturn false, truststore.TrustStoreError{Msg: fmt.Sprintf(\"invalid trust policy statement: %q is missing separator in trust store value %q. The required format is <TrustStoreType>:<TrustStoreName>\", policyName, trustStore)}\n\t\t}\n\t\tif truststore.Type(storeType) == truststore.TypeTSA {",
+         "\tfor _, value := range trustStores {\n\t\tprefix, _, found := strings.Cut(value, \":\")\n\t\tif found == false {\n\t\t\treturn false, truststore.TrustStoreError{Msg: fmt.Sprintf(\"statement %q: no separator in %q\", policyName, value)}\n\t\t}\n\t\tif truststore.TypeTSA == truststore.Type(prefix) {")]),
+ "rw4": ("REWRITE isTSATrustStoreInPolicy: result through a flag and break instead of return", [
+     (H, "\t\tif truststore.Type(storeType) == truststore.TypeTSA {\n\t\t\treturn true, nil\n\t\t}\n\t}\n\treturn false, nil",
+         "\t\tif truststore.Type(storeType) == truststore.TypeTSA {\n\t\t\treturn true, nil\n\t\t} else {\n\t\t\tcontinue\n\t\t}\n\t}\n\treturn false, nil")]),
+ "rw5": ("REWRITE loadX509TrustStores: switch as an if-chain, cases in the other order", [
+     (H, "\tswitch scheme {\n\tcase signature.SigningSchemeX509:\n\t\ttypeToLoad = truststore.TypeCA\n\tcase signature.SigningSchemeX509SigningAuthority:\n\t\ttypeToLoad = truststore.TypeSigningAuthority\n\tdefault:\n\t\treturn nil, truststore.TrustStoreError{Msg: fmt.Sprintf(\"error while loading the trust store, unrecognized signing scheme %q\", scheme)}\n\t}",
+         "\tif scheme == signature.SigningSchemeX509SigningAuthority {\n\t\ttypeToLoad = truststore.TypeSigningAuthority\n\t} else if signature.SigningSchemeX509 == scheme {\n\t\ttypeToLoad = truststore.TypeCA\n\t} else {\n\t\treturn nil, truststore.TrustStoreError{Msg: fmt.Sprintf(\"unknown signing scheme %q\", scheme)}\n\t}")]),
+ "rw6": ("REWRITE loadX509TrustStores: variable renamed, message reworded", [
+     (H, "func loadX509TrustStores(ctx context.Context, scheme signature.SigningScheme, policyName string, trustStores []string, x509TrustStore truststore.X509TrustStore) ([]*x509.Certificate, error) {\n\tvar typeToLoad truststore.Type\n\tswitch scheme {\n\tcase signature.SigningSchemeX509:\n\t\ttypeToLoad = truststore.TypeCA\n\tcase signature.SigningSchemeX509SigningAuthority:\n\t\ttypeToLoad = truststore.TypeSigningAuthority\n\tdefault:\n\t\treturn nil, truststore.TrustStoreError{Msg: fmt.Sprintf(\"error while loading the trust store, unrecognized signing scheme %q\", scheme)}\n\t}\n\treturn loadX509TrustStoresWithType(ctx, typeToLoad,",
+         "func loadX509TrustStores(ctx context.Context, scheme signature.SigningScheme, policyName string, trustStores []string, x509TrustStore truststore.X509TrustStore) ([]*x509.Certificate, error) {\n\tvar wanted truststore.Type\n\tswitch scheme {\n\tcase signature.SigningSchemeX509:\n\t\twanted = truststore.TypeCA\n\tcase signature.SigningSchemeX509SigningAuthority:\n\t\twanted = truststore.TypeSigningAuthority\n\tdefault:\n\t\treturn nil, truststore.TrustStoreError{Msg: fmt.Sprintf(\"scheme %q has no trust store type\", scheme)}\n\t}\n\treturn loadX509TrustStoresWithType(ctx, wanted,")]),
+ "rw7": ("REWRITE loadX509TSATrustStores: early return instead of switch", [
+     (H, "\tvar typeToLoad truststore.Type\n\tswitch scheme {\n\tcase signature.SigningSchemeX509:\n\t\ttypeToLoad = truststore.TypeTSA\n\tdefault:\n\t\treturn nil, truststore.TrustStoreError{Msg: fmt.Sprintf(\"error while loading the TSA trust store, signing scheme must be notary.x509, but got %s\", scheme)}\n\t}\n\treturn loadX509TrustStoresWithType(ctx, typeToLoad, policyName, trustStores, x509TrustStore)",
+         "\tif scheme != signature.SigningSchemeX509 {\n\t\treturn nil, truststore.TrustStoreError{Msg: fmt.Sprintf(\"TSA trust stores need signing scheme notary.x509, got %s\", scheme)}\n\t}\n\treturn loadX509TrustStoresWithType(ctx, truststore.TypeTSA, policyName, trustStores, x509TrustStore)")]),
+ "rw8": ("REWRITE loadX509TSATrustStores: message reworded, variable renamed", [
+     (H, "\tvar typeToLoad truststore.Type\n\tswitch scheme {\n\tcase signature.SigningSchemeX509:\n\t\ttypeToLoad = truststore.TypeTSA\n\tdefault:\n\t\treturn nil, truststore.TrustStoreError{Msg: fmt.Sprintf(\"error while loading the TSA trust store, signing scheme must be notary.x509, but got %s\", scheme)}\n\t}\n\treturn loadX509TrustStoresWithType(ctx, typeToLoad,",
+         "\tvar tsaType truststore.Type\n\tswitch scheme {\n\tcase signature.SigningSchemeX509:\n\t\ttsaType = truststore.TypeTSA\n\tdefault:\n\t\treturn nil, truststore.TrustStoreError{Msg: fmt.Sprintf(\"wrong scheme %s for TSA trust stores\", scheme)}\n\t}\n\treturn loadX509TrustStoresWithType(ctx, tsaType,")]),
  # --- behaviour preserving: must stay silent
  "r1": ("REFACTORING: Add before the load, error messages changed", [
      (H, "\t\tcerts, err := x509TrustStore.GetCertificates(ctx, trustStoreType, name)\n\t\tif err != nil {\n\t\t\treturn nil, err\n\t\t}\n\t\tcertificates = append(certificates, certs...)\n\t\tprocessedStoreSet.Add(trustStore)",
@@ -105,7 +148,16 @@ try:
         verdict = ("silent" if not viol else ("caught (no-failing-input-found)" if "no-failing-input-found" in viol[0] else "caught with replay"))
         good = (verdict == "silent") == silent_expected
         bad += 0 if good else 1
-        print(f"{n:4} {'ok ' if good else 'BAD'} {verdict:32} {what} | {summ[summ.find('cases='):]}")
+        brk = ""
+        if viol and "replay=" in viol[0]:
+            try:
+                import json
+                rp = json.load(open(viol[0].split("replay=")[1].split()[0]))
+                names = [b.get("detail", "") if isinstance(b, dict) else str(b) for b in (rp.get("broken") or rp.get("no_longer_checks") or [])]
+                brk = " broken: " + "; ".join(x.split("\n")[0][-90:] for x in names) if names else ""
+            except Exception as e:
+                brk = f" (replay unreadable: {e})"
+        print(f"{n:4} {'ok ' if good else 'BAD'} {verdict:32} {what} | {summ[summ.find('cases='):]}{brk}")
 finally:
     subprocess.run(["git", "-C", "/repo", "worktree", "remove", "--force", WT], capture_output=True)
     subprocess.run([os.path.join(V, "check"), "C03"], capture_output=True, text=True, cwd=V,
